@@ -128,10 +128,10 @@ def P2(k):
         for c in (0, 1, 2, 3, 4, 5, 6, 7, 8, 16):
             FACTS.add(z3.Implies(k == c, t == 2 ** c), "p2-small")
             FACTS.add(z3.Implies(k >= c, t >= 2 ** c), "p2-mono")
-        for (k2,) in FACTS.items("p2"):
-            if k2 is k:
-                continue
-            _p2_pair(k, k2)
+        others = [k2 for (k2,) in FACTS.items("p2") if k2 is not k]
+        if len(others) <= 24:
+            for k2 in others:
+                _p2_pair(k, k2)
     return t
 
 
@@ -194,7 +194,17 @@ def regb(t):
     """Register a Bytes term: well-formedness facts."""
     if FACTS.reg("bytes", t):
         FACTS.add(blen(t) >= 0, "bytes-wf")
-        FACTS.add(z3.And(bval(t) >= 0, bval(t) < P256(blen(t))), "bytes-wf")
+        FACTS.add(bval(t) >= 0, "bytes-wf")
+        kl = _known_len(t)
+        if kl is not None:
+            FACTS.add(bval(t) < 256 ** kl, "bytes-wf")
+    return t
+
+
+def wf_upper(t):
+    """bval(t) < 256**blen(t): instantiated on demand (it creates a 2**k term)"""
+    if FACTS.reg("bytes-upper", t):
+        FACTS.add(bval(t) < P256(blen(t)), "bytes-wf")
     return t
 
 
@@ -221,6 +231,7 @@ def mk_bytes(l, v):
     if FACTS.reg("mkb", t):
         FACTS.add(z3.Implies(z3.And(l >= 0, v >= 0, v < P256(l)), z3.And(blen(t) == l, bval(t) == v)), "mkb")
         regb(t)
+        wf_upper(t)
     return t
 
 
@@ -261,6 +272,8 @@ _KNOWN_LEN = {}
 
 def set_known_len(t, n):
     _KNOWN_LEN[t.get_id()] = (t, n)
+    if n is not None and FACTS.reg("bytes-upper", t):
+        FACTS.add(bval(t) < 256 ** n, "bytes-wf")
 
 
 def _known_len(t):
@@ -441,6 +454,7 @@ def HEAD(s):
     t = head(s)
     if FACTS.reg("head", s):
         regb(s)
+        wf_upper(s)
         FACTS.add(z3.Implies(blen(s) >= 1, z3.And(t >= 0, t <= 255)), "head-range")
         tl = bdrop(s, 1)
         # s = [head] + tail
